@@ -5,3 +5,4 @@ import Jmes.Tie.Errors
 import Jmes.Tie.Kinds
 import Jmes.Tie.Effects
 import Jmes.Tie.Lexer
+import Jmes.Tie.Shape
